@@ -86,7 +86,7 @@ PROPS = {
     "C05": {
         "title": "No silent truncation: a transport fault yields whole messages, then an error",
         "level": "fault_enumeration",
-        "rule": "rapid-generated valid stream (C03 generator, both roles, compressed or not) x EVERY cut offset 0..len (exhaustive for streams <= 600 bytes, boundary+300 evenly spaced offsets above) x 10 fault behaviours {EOF, EOF with the last bytes, io.ErrUnexpectedEOF, io.ErrUnexpectedEOF with bytes, error, error with bytes, timeout, timeout with bytes, timeout then the transport resumes, error+bytes then resumes} x chunking x read program (incl. reads >= bufio size, abandonment) x 1..900 later calls; oracle: delivered messages are byte-identical prefixes of the sent ones, a message is reported complete only if all its wire bytes arrived (or its deflate stream is self-terminating), every message that had fully arrived before the failing transport read is delivered, partial message => non-nil error != io.EOF, an error follows, and NextReader keeps returning the same error and nothing more. Non-trivial = (case, offset, kind) with the cut inside a frame header, inside a payload or between two fragments of a message.",
+        "rule": "rapid-generated valid stream (C03 generator, both roles, compressed or not) x EVERY cut offset 0..len (exhaustive for streams <= 600 bytes, boundary+300 evenly spaced offsets above) x 10 fault behaviours {EOF, EOF with the last bytes, io.ErrUnexpectedEOF, io.ErrUnexpectedEOF with bytes, error, error with bytes, timeout, timeout with bytes, timeout then the transport resumes, error+bytes then resumes} x chunking x read program (incl. reads >= bufio size, abandonment; a sixth of the cases consume the whole stream through one JoinMessages reader with terminator "", "\\n" or "||") x 1..900 later calls; oracle: delivered messages are byte-identical prefixes of the sent ones, a message is reported complete only if all its wire bytes arrived (or its deflate stream is self-terminating), every message that had fully arrived before the failing transport read is delivered, partial message => non-nil error != io.EOF, an error follows, and NextReader keeps returning the same error and nothing more; a message reader that has failed is read twice more and must return no data and an error other than io.EOF; a joined stream never ends with io.EOF in the middle of a message and its terminator appears only after fully arrived messages. Non-trivial = (case, offset, kind) with the cut inside a frame header, inside a payload or between two fragments of a message.",
         "assumptions": TRUST + ["fault behaviours are the legal io.Reader behaviours listed; kernel-level partial reads are modelled by the chunk plan"],
         "level_text": "Every byte offset of each generated stream is cut by every fault kind (exhaustive per stream up to 600 bytes); streams themselves are sampled.",
         "level_note": "Reference model from the independent encoder; which transport read failed is taken from the scripted transport's own accounting.",
@@ -197,7 +197,7 @@ PROPS = {
     "C14": {
         "title": "Client handshake: connect iff the reply proves the server accepted this request",
         "level": "exploration",
-        "rule": "URLs (scheme ws/wss/WS/http/https/empty/other, optional userinfo, host names/IPv4/IPv6 literals with and without port, paths with reserved and percent-escaped characters, queries), Dialer settings (Subprotocols, EnableCompression) and caller header maps (benign names incl. Host override and cookies, and each protocol-owned name) are generated; every case dials twice on one Dialer against a scripted server: first a plain valid reply, then a reply built from the observed request in three modes (valid with variations of header-name case, token case, extra tokens, OWS, several lines / exactly one defect / free mix): status of every class, missing or near-miss Upgrade/Connection tokens, Accept absent / truncated / prefix / for another key / STALE from the first dial / trailing junk / case-changed / empty, bodies of 0..5000 bytes length-delimited or chunked. Oracle: a Conn is returned iff status 101 and Upgrade has token websocket and Connection has token upgrade and Accept equals the independent digest of the key sent in THIS request; otherwise ErrBadHandshake with the reply's status, headers and the first min(1024,n) body bytes; the captured request is accepted by a strict parser: GET, request-target == path?query of the URL, HTTP/1.1, Host = URL host or override, exactly one Upgrade/Connection/Version/Key, key canonical base64 of 16 bytes and never repeated in the run, subprotocols as configured, permessage-deflate offered iff enabled, caller headers present; protocol-owned caller headers, non-ws(s) schemes and userinfo are refused with zero calls of the dial hook. Non-trivial = reply differing from a valid one in exactly one element; URLs with query/escapes/IPv6.",
+        "rule": "URLs (scheme ws/wss/WS/http/https/empty/other, optional userinfo, host names/IPv4/IPv6 literals with and without port, paths with reserved and percent-escaped characters, queries), Dialer settings (Subprotocols, EnableCompression) and caller header maps (benign names incl. Host override and cookies, and each protocol-owned name) are generated; every case dials twice on one Dialer, with the same caller header map, against a scripted server (both requests are judged; Dial must return without asking the connection for more input once the valid 101 is complete): first a plain valid reply, then a reply built from the observed request in three modes (valid with variations of header-name case, token case, extra tokens, OWS, several lines / exactly one defect / free mix): status of every class, missing or near-miss Upgrade/Connection tokens, Accept absent / truncated / prefix / for another key / STALE from the first dial / trailing junk / case-changed / empty, bodies of 0..5000 bytes length-delimited or chunked. Oracle: a Conn is returned iff status 101 and Upgrade has token websocket and Connection has token upgrade and Accept equals the independent digest of the key sent in THIS request; otherwise ErrBadHandshake with the reply's status, headers and the first min(1024,n) body bytes; the captured request is accepted by a strict parser: GET, request-target == path?query of the URL, HTTP/1.1, Host = URL host or override, exactly one Upgrade/Connection/Version/Key, key canonical base64 of 16 bytes and never repeated in the run, subprotocols as configured, permessage-deflate offered iff enabled, caller headers present; protocol-owned caller headers, non-ws(s) schemes and userinfo are refused with zero calls of the dial hook. Non-trivial = reply differing from a valid one in exactly one element; URLs with query/escapes/IPv6.",
         "assumptions": TRUST + ["a reply whose Connection header carries the token close is unspecified (net/http deletes that header before the library sees it)"],
         "level_text": "Bounded random exploration of replies, URLs, settings and header maps with an independent digest and a strict request parser.",
         "level_note": "The scripted server computes replies from the bytes the client actually wrote.",
